@@ -366,7 +366,7 @@ def rule_c(ck, R):
         ck.verdict(bad is None, 'C07.c', 'parse_frame:order', R.where('parse_frame'),
                    'header -> plausibility -> payload checksum; the first failure is returned, success needs all three' if bad is None else bad)
     # regp_recv mapping
-    eng = R.engine({'early_ebusy', 'early_erxoverflow', 'regp_has_hdcrc', 'regp_has_plcrc'})
+    eng = R.engine({'early_ebusy', 'early_erxoverflow', 'regp_has_hdcrc', 'regp_has_plcrc', 'frame_fits_transport'})
     ps = R.paths('regp_recv', 'C07.c', eng)
     if ps is not None:
         bad = None
@@ -409,17 +409,25 @@ def rule_c(ck, R):
             nrec += 1
             if pf:
                 r = pf[0].result
+                def transport_refusal(p):
+                    # a frame that does not declare the checksums its (non-TCP) channel mandates: header encoding fault
+                    notcp = not any(c[0] == 'cmp' and c[1] == '==' and 'ep.type' in fmt(c[2]) and c[3] == C(E['RP_EP_TCP']) for c in p.cond_terms())
+                    hd_ = [opt_test(c, E['RP_OPT_WITH_HEADER_CRC']) for c in p.cond_terms()]
+                    pl_ = [opt_test(c, E['RP_OPT_WITH_PAYLOAD_CRC']) for c in p.cond_terms()]
+                    haspl = any(c[0] == 'cmp' and c[1] == '!=' and c[3] == C(0) and fmt(c[2]).endswith('payload.size') for c in p.cond_terms())
+                    metas = p.calls('regp_resp_meta')
+                    return notcp and (False in hd_ or (haspl and False in pl_)) and eid == C(EBADMSG) and \
+                        bool(metas) and metas[0].args[1] == C(E['RP_META_EHEADERENC'])
                 if eng.feasible(p.cond_terms() + [('cmp', '<', r, C(0))]):
-                    if not ((eid[0] == 'neg' and eid[1] == r) or fmt(eid) == '-%s' % fmt(r)):
+                    if transport_refusal(p):
+                        ntransport += 1
+                    elif not ((eid[0] == 'neg' and eid[1] == r) or fmt(eid) == '-%s' % fmt(r)):
                         bad = bad or ('parse_frame may have failed on the path {%s} but error.id is left at %s: regp_process treats the frame as valid and executes it'
                                       % ('; '.join(fmt(c) for c in p.cond_terms() if sym.contains(c, r)), fmt(eid)))
                 elif eid != C(0):
                     # the one fault that is not parse_frame's: a frame that does not conform to the transport (document 5.1:
                     # serial channels carry the header checksum) is a header encoding fault
-                    serial = not any(c[0] == 'cmp' and c[1] == '==' and 'ep.type' in fmt(c[2]) and c[3] == C(E['RP_EP_TCP']) for c in p.cond_terms())
-                    nohd = False in [opt_test(c, E['RP_OPT_WITH_HEADER_CRC']) for c in p.cond_terms()]
-                    metas = p.calls('regp_resp_meta')
-                    if serial and nohd and eid == C(EBADMSG) and metas and metas[0].args[1] == C(E['RP_META_EHEADERENC']):
+                    if transport_refusal(p):
                         ntransport += 1
                     else:
                         bad = bad or ('a frame that parsed without fault leaves error.id = %s (not reset to 0 for this call): a good frame following a bad one is treated as failed'
@@ -429,8 +437,14 @@ def rule_c(ck, R):
                     serial = [c for c in p.cond_terms() if c[0] == 'cmp' and 'ep.type' in fmt(c[2]) and sym.is_c(c[3])]
                     is_tcp = any(c[1] == '==' and c[3] == C(E['RP_EP_TCP']) for c in serial)
                     hd = True in [opt_test(c, E['RP_OPT_WITH_HEADER_CRC']) for c in p.cond_terms()]
+                    pl = True in [opt_test(c, E['RP_OPT_WITH_PAYLOAD_CRC']) for c in p.cond_terms()]
+                    nopayload = any(c[0] == 'cmp' and c[1] == '==' and c[3] == C(0) and fmt(c[2]).endswith('payload.size') for c in p.cond_terms())
                     if not is_tcp:
                         naccept_serial += 1
+                        if hd and not (pl or nopayload):
+                            tbad = tbad or ('a frame received on a serial channel is accepted under {%s} with payload but without the WITH-PAYLOAD-CRC bit having been seen '
+                                            'set: the document (5.1) mandates the payload checksum for messages that carry payload; such a frame\'s payload is covered by '
+                                            'no checksum at all' % '; '.join(fmt(c) for c in p.cond_terms() if 'ep.type' in fmt(c) or 'options' in fmt(c) or 'payload.size' in fmt(c))[:240])
                         if not hd:
                             tbad = tbad or ('a frame received on a serial channel is accepted under {%s} without the WITH-HEADER-CRC bit having been seen set: '
                                             'the document (5.1) mandates the header checksum there, and a frame without it is not protected at all - a burst over '
